@@ -272,7 +272,7 @@ def check_generic(pid, tier, igns, modes=('keygen', 'std', 'safe'), pvals=None, 
     rep = common.Report(pid, tier)
     work = common.scratch('key')
     rng = random.Random(common.seed() + int(pid[1:]))
-    CALL_CAP[0] = 300
+    CALL_CAP[0] = 300 if tier == 'thorough' else 200
     consts = base_consts(tier, igns, pvals=pvals, po=po)
     mcs = []
     pc = pair_consts(tier, consts)
